@@ -2,6 +2,7 @@ import KsVerif.Base.Verdict
 import KsVerif.Api.Progress
 import KsVerif.Sched.Driver
 import KsVerif.Redis.Driver
+import KsVerif.Amqp.Driver
 import KsVerif.Kfl.MacroDriver
 import KsVerif.Kfl.Driver
 open KsVerif
@@ -10,6 +11,9 @@ open KsVerif
 def judge (fam payload impl : String) : Verdict :=
   match fam with
   | "progress" => Progress.judge payload impl
+  | "amqp.conv" => Amqp.Driver.judgeConv payload impl
+  | "amqp.raw" => Amqp.Driver.judgeRaw payload impl
+  | "amqp.split" => Amqp.Driver.judgeRaw payload impl (splitMode := true)
   | "redis.conv" => Redis.Driver.judgeConv payload impl
   | "redis.convsplit" => Redis.Driver.judgeConv payload impl (splitMode := true)
   | "redis.raw" => Redis.Driver.judgeRaw payload impl
